@@ -207,6 +207,22 @@ def run(ctx):
             problems.append('named zone normalisation')
         if timeutils.normalize_time(dt) is not dt:
             problems.append('naive not left alone')
+        # the repeated hour of a DST zone: both readings of the same wall clock, back to back
+        for zn, wall in (('Europe/Paris', datetime.datetime(2024, 10, 27, 2, 30)),
+                         ('America/New_York', datetime.datetime(2024, 11, 3, 1, 30)),
+                         ('Australia/Sydney', datetime.datetime(2025, 4, 6, 2, 15))):
+            zz = zoneinfo.ZoneInfo(zn)
+            w = wall.replace(microsecond=rnd.choice([0, 1, 999999]))
+            order = [0, 1] if j % 2 else [1, 0]
+            for fold in order:
+                a = w.replace(tzinfo=zz, fold=fold)
+                want = (a - a.utcoffset()).replace(tzinfo=None)
+                if timeutils.normalize_time(a) != want:
+                    problems.append('repeated hour of %s, fold=%d' % (zn, fold))
+                timeutils.set_time_override(want + datetime.timedelta(seconds=10))
+                if timeutils.is_older_than(a, 9) is not True or timeutils.is_older_than(a, 10) is not False:
+                    problems.append('is_older_than in the repeated hour of %s, fold=%d' % (zn, fold))
+                timeutils.clear_time_override()
         for p in problems:
             ctx.violation({'kind': 'marshall/zone', 'what': p}, {'datetime': str(dt), 'zone': str(z)},
                           '%s fails for %s (%s)' % (p, dt, z))
